@@ -297,9 +297,9 @@ impl UsesLifetimes for syn::TypeParamBound {
         match *self {
             syn::TypeParamBound::Trait(ref v) => v.uses_lifetimes(options, lifetimes),
             syn::TypeParamBound::Lifetime(ref v) => v.uses_lifetimes(options, lifetimes),
-            // non-exhaustive enum
-            // TODO: replace panic with failible function
-            _ => panic!("Unknown syn::TypeParamBound: {:?}", self),
+            // non-exhaustive enum: a bound that is neither a trait nor a lifetime (such as the
+            // precise-capturing `use<..>`) does not use a parameter in the sense of this analysis
+            _ => Default::default(),
         }
     }
 }
